@@ -1,52 +1,59 @@
-p='/verif/harness/src/props/c17.rs'; s=open(p).read()
-old=s[s.index("        // lookups\n"):s.index("    fn check(&self, c: &C17Case, st: &mut Stats) -> Vec<Viol> {")]
-new='''        // lookups, sharded by the configuration of the first Files paragraph
-        let cfgs = files_cfgs();
-        let li = shard - ps.n_shards() - 1;
-        let lic_sets: [&[usize]; 4] = [&[], &[0], &[1, 0], &[0, 0]];
-        let mut emit = |files: &Vec<(usize, usize, bool, usize)>| {
-            for licenses in lic_sets {
-                for path in 0..LOOKUP_PATHS.len() {
-                    f(&C17Case::Lookup { files: files.clone(), licenses: licenses.to_vec(), path });
-                }
-            }
-        };
-        if li == cfgs.len() {
-            emit(&vec![]);
-            return;
-        }
-        let first = cfgs[li];
-        emit(&vec![first]);
-        for second in &cfgs {
-            emit(&vec![first, *second]);
-            if t == Tier::Thorough {
-                for third in &cfgs {
-                    emit(&vec![first, *second, *third]);
-                }
-            }
-        }
-    }
-'''
-s=s.replace(old,new)
-s=s.replace('''    fn n_shards(&self, t: Tier) -> usize {
-        pat_space(t).n_shards() + 2
-    }''','''    fn n_shards(&self, t: Tier) -> usize {
-        pat_space(t).n_shards() + 1 + files_cfgs().len() + 1
-    }''')
-s=s.replace("pub struct C17;",'''/// configurations of one Files paragraph: first pattern x (second pattern: none / "*.c" same line /
-/// "*.c" own line / "a/b" same line) x licence kind
-fn files_cfgs() -> Vec<(usize, usize, bool, usize)> {
-    let mut v = vec![];
-    for p1 in 0..LOOKUP_PATTERNS.len() {
-        for (p2, own) in [(0, false), (4, false), (4, true), (3, false)] {
-            for lic in 0..LIC_KINDS {
-                v.push((p1, p2, own, lic));
-            }
-        }
-    }
-    v
-}
+import re
+p = '/verif/harness/src/props/c15_rows.rs'
+s = open(p).read()
 
-pub struct C17;''')
-s=s.replace("use crate::kdev::product;\n","")
-open(p,'w').write(s)
+# 1. empty string lists are not valid values of these Debian list fields (an empty field value) -> not in the menus
+n0 = s.count(', Vec::<String>::new()]')
+s = s.replace(', Vec::<String>::new()]', ']')
+print('removed empty string-list values:', n0)
+
+def drop_block(start_marker, what):
+    """remove one read_row!(...) invocation starting at the line containing start_marker"""
+    global s
+    i = s.index(start_marker)
+    a = s.rfind('\n', 0, i) + 1
+    # the invocation ends at the first line that is exactly '        ]),'
+    b = s.index('\n        ]),\n', i) + len('\n        ]),\n')
+    # also drop a comment line directly in front
+    prev = s.rfind('\n', 0, a - 1) + 1
+    if s[prev:a].strip().startswith('//'):
+        a = prev
+    s = s[:a] + s[b:]
+    print('dropped', what)
+
+def drop_case(marker, what):
+    """remove one (text, want) tuple line (possibly two physical lines) containing marker"""
+    global s
+    i = s.index(marker)
+    a = s.rfind('\n', 0, i) + 1
+    # tuple ends with '),\n' at the end of a line
+    b = s.index('),\n', i) + 3
+    s = s[:a] + s[b:]
+    print('dropped case', what)
+
+drop_block('[field names in another case]', 'case-insensitive field names (the library is case-sensitive throughout; the statement only says paragraphs are found by their Source/Package fields)')
+drop_block('[as written in archive Release files]', "reading of 'Packages' as a yes/no flag (no documented boolean reading)")
+drop_case('Format-Specification: http://svn.debian.org', 'Format-Specification fallback (text not starting with Format is refused by design, C17)')
+drop_case('Files-Excluded: vendor/* *.min.js\\n docs/rfc*.txt', 'Files-Excluded whitespace splitting (uscan convention, not DEP-5)')
+drop_case('License: Expat\\n header text', 'header paragraph carrying a License field')
+# FilesParagraph.copyright on an absent field
+i = s.index('read_row!("copyright::FilesParagraph", "copyright"')
+j = s.index('\n        ]),\n', i)
+seg = s[i:j]
+lines = seg.split('\n')
+lines = [l for l in lines if not (l.strip().endswith('"[]"),') and 'Copyright' not in l.split('License')[0].replace('copyright-format', ''))]
+s = s[:i] + '\n'.join(lines) + s[j:]
+# substvars are reported by substvars(), not among the entries
+s = s.replace('"Some([\\"${shlibs:Depends}\\", \\"libc6 (>= 2.36)\\", \\"a | b\\"])"', '"Some([\\"libc6 (>= 2.36)\\", \\"a | b\\"])"')
+open(p, 'w').write(s)
+
+p = '/verif/harness/src/props/c15.rs'
+s = open(p).read()
+old = '''    let o2 = match (b.run)(&o1.after, 0) {'''
+new = '''    if o1.got != o1.want {
+        return out; // the first setter alone already fails: reported by its own Set case
+    }
+    let o2 = match (b.run)(&o1.after, 0) {'''
+assert old in s
+s = s.replace(old, new)
+open(p, 'w').write(s)
